@@ -23,6 +23,7 @@ RULE = ("the 20 single residues, all 400 ordered residue pairs (pins every table
 RULE += ("; added after the mutation rounds: six (thorough 40) chains of 1000-3000 residues; words spelling three-letter codes; other legal calls (history salt) before the getters; the first cases of every shard are judged again at its end")
 RULE += ("; round 5: look-alike words and few-letter alphabets (nucleotide strings, reading frames, DSSP strings)")
 RULE += ("; round 6: several threads asking the composition getters, each of objects of its own")
+RULE += ("; round 9: a third of the plain inputs reach the getters as objects obtained by another route (file, pickle, copy, backend object) or as shuffled copies of such objects")
 EXHAUSTIVE = {"quick": False, "thorough": False}
 EXHAUSTIVE_NOTE = {"quick": "20 single residues and 400 ordered pairs enumerated completely",
                    "thorough": "20 single residues and 400 ordered pairs enumerated completely"}
